@@ -518,6 +518,7 @@ func (g *G) malformed(kind string) []byte {
 
 func genC01(g *G) {
 	dsts := []string{"evm", "sub", "btc"}
+	genC01Long(g)
 	var prev []string
 	emit := func(srcKind, dstKind string, a1, a2 string) {
 		s, d, n, r := g.ids()
